@@ -126,6 +126,15 @@ def exhaustive_single_ops(ctx, out, judge, *, max_nodes, alphabet, typed=False, 
     """every forest with <= max_nodes nodes (labelings with clones sampled) x every single
     operation of `ops_of(impl, ti)`; with `specs`, those labelled forests instead"""
     count = 0
+    import time as _time
+
+    # at most half of the remaining time budget goes to the single-operation enumeration (the histories need the rest); the
+    # hand-made forests (collisions at non-first positions, ==-equal siblings, nested clones) come first
+    t_end = _time.time() + max(ctx.time_left() * 0.5, 5.0) if ctx.budget_s is not None else float("inf")
+    if specs is None:
+        c2 = exhaustive_single_ops(ctx, out, judge, max_nodes=max_nodes, alphabet=alphabet, typed=typed, ops_of=ops_of, label_limit=label_limit, specs=EQ_SIBLING_SPECS)
+        out.dist["eq_sibling_single_ops"] += c2
+        count += c2
     for n in ([None] if specs is not None else range(0, max_nodes + 1)):
         for shape in ([None] if specs is not None else gen.forests(n)):
             if specs is not None:
@@ -150,8 +159,8 @@ def exhaustive_single_ops(ctx, out, judge, *, max_nodes, alphabet, typed=False, 
                     continue
                 ops = ops_of(r0.impl, 0)
                 for op in ops:
-                    if ctx.time_left() < 5:
-                        out.notes.append("time budget reached in the exhaustive part")
+                    if ctx.time_left() < 5 or _time.time() > t_end:
+                        out.notes.append(f"time share of the single-operation enumeration used up (forests of {n} nodes not completed)")
                         return count
                     r, _ = setup_runner(ctx, dict(cfg, setup=setup, oracles=False))
                     r.oracles = True
@@ -198,10 +207,6 @@ def exhaustive_single_ops(ctx, out, judge, *, max_nodes, alphabet, typed=False, 
                                     out.fail(dict(cfg=pub(cfg), log=setup + [H.clean(op), H.clean(op2)]),
                                              f"[{tag}] tree {spec}, ops {H.clean(op)}, {H.clean(op2)}: {text}", step=s2.as_dict(), finding=finding)
                                     break
-    if specs is None:
-        c2 = exhaustive_single_ops(ctx, out, judge, max_nodes=max_nodes, alphabet=alphabet, typed=typed, ops_of=ops_of, label_limit=label_limit, specs=EQ_SIBLING_SPECS)
-        out.dist["eq_sibling_single_ops"] += c2
-        count += c2
     return count
 
 
